@@ -318,6 +318,14 @@ theorem cell_eq_map {c : Cell} (hnd : (ckeys c).Nodup) : c = (ckeys c).map (fun 
     rw [this]
     exact ih'
 
+/-- the composite tags, written independently of the generated slices: every member keeps its own tag without
+    the last component, followed by the last components of all members -/
+def specRetag (s : List (Nat × Tok)) : Emit :=
+  s.map (fun x => (x.1, { x.2 with tag := x.2.tag.dropLast ++ s.filterMap (fun y => y.2.tag.getLast?) }))
+
+/-- the key of a tag: the tag without its last `depth` components -/
+def specKey (depth : Nat) (t : Tag) : Tag := t.take (t.length - depth)
+
 /-- the canonical cell of key `κ`: ports in increasing order, the received tokens of the key in stream order -/
 def canonCell (depth P : Nat) (S : List Ev) (κ : Tag) : Cell :=
   (List.range P).map (fun q => (q, bucket depth S κ q))
@@ -326,8 +334,15 @@ def canonCell (depth P : Nat) (S : List Ev) (κ : Tag) : Cell :=
     full cross product over the ports of the received tokens with that key, every member retagged with its own
     tag minus the last component followed by the last components of all members -/
 def specCart (depth P : Nat) (S : List Ev) : List Emit :=
-  ((dedup (S.map (fun e => cartKey depth e.2.tag))).flatMap
-    (fun κ => rcfgs (cartSchema (List.range P)) (canonCell depth P S κ))).map cartEmit
+  ((dedup (S.map (fun e => specKey depth e.2.tag))).flatMap
+    (fun κ => rcfgs (cartSchema (List.range P)) (canonCell depth P S κ))).map specRetag
+
+theorem cartEmit_eq_specRetag : cartEmit = specRetag := by
+  funext s
+  simp only [cartEmit, specRetag, Gen.cartSuffixOf, Gen.cartRetagKeep, List.dropLast_eq_take]
+
+theorem cartKey_eq_specKey (depth : Nat) (t : Tag) : cartKey depth t = specKey depth t := by
+  simp [cartKey, Gen.cartKey, specKey]
 
 theorem totalL_eq {β : Type} (F : Cfg → Option β) {tv : TV} (hnd : (tkeys tv).Nodup) :
     totalL F tv = (tkeys tv).flatMap (fun κ => rcfgs F (tcell tv κ)) := by
@@ -400,6 +415,11 @@ theorem runCart_any_order {depth P L : Nat} (S es : List Ev) (h : WFCart depth P
   simp only [List.nil_append] at hI
   refine ⟨herr, ?_⟩
   unfold runCart
+  unfold specCart
+  rw [← cartEmit_eq_specRetag]
+  have hkk : (fun e : Ev => specKey depth e.2.tag) = (fun e : Ev => cartKey depth e.2.tag) := by
+    funext e; exact (cartKey_eq_specKey depth e.2.tag).symm
+  rw [hkk]
   refine hI.outs.trans (List.Perm.map _ ?_)
   rw [totalL_eq _ hI.valid.1]
   have hkeys : (tkeys (runWith (cartAdd depth (List.range P)) es [] []).tv).Perm
